@@ -389,7 +389,12 @@ func (r *zmRun) op(tx *Tx, m *zmBucket) {
 		} else {
 			got = rb.DeleteBucket([]byte(name))
 		}
-		if got != want {
+		if name == "" {
+			// no error is documented for an empty name: any error, state unchanged
+			if got == nil {
+				r.fail("C04", "DeleteBucket(%s, \"\") returned nil", ps)
+			}
+		} else if got != want {
 			r.fail("C04", "DeleteBucket(%s,%q) = %v, model says %v", ps, name, zmErr(got), zmErr(want))
 		}
 		if want == nil {
@@ -425,6 +430,9 @@ func (r *zmRun) op(tx *Tx, m *zmBucket) {
 		}
 		r.log("MoveBucket(%q, %s -> %s)", name, ps, strings.Join(dpath, "/"))
 		got := tx.MoveBucket([]byte(name), rb, zmReal(tx, dpath))
+		if name == "" {
+			wantAny = true // no error is documented for an empty name: any error, state unchanged
+		}
 		if wantAny {
 			if got == nil {
 				r.fail("C04", "MoveBucket(%q, %s -> %s) into its own subtree returned nil", name, ps, strings.Join(dpath, "/"))
